@@ -230,6 +230,28 @@ theorem uniq_step_new (c : Nat) (src : Nat → Int) (seen : List Int) (p i : Nat
       · exact ih _ h
   exact this c p h
 
+theorem runLen_le (src : Nat → Int) (v : Int) : ∀ (c p : Nat), runLen src v c p ≤ c := by
+  intro c
+  induction c with
+  | zero => intro p; simp [runLen]
+  | succ c ih => intro p; simp only [runLen]; split; exact Nat.succ_le_succ (ih _); omega
+
+/-- group consecutive: at most `c + 2` pulls per group when runs are at most `c` long -/
+theorem bound_group (c : Nat) (src : Nat → Int) (n : Nat) : pulls (groupT c) src n ≤ (c + 2) * n := by
+  have hstep : StepBound (groupT c) src (c + 2) (fun _ => True) := by
+    intro s p _
+    refine ⟨?_, trivial⟩
+    cases s with
+    | none => simp only [groupT]; have := runLen_le src (src p) c (p + 1); omega
+    | some v => simp only [groupT]; have := runLen_le src v c p; omega
+  have := run_bound (groupT c) src (c + 2) (fun _ => True) hstep n none 0 trivial
+  simpa [pulls, groupT] using this
+
+/-- on a source without repetitions every group is a single item and, after the first, costs one pull -/
+theorem group_distinct_step (c : Nat) (src : Nat → Int) (v : Int) (p : Nat) (h : src p ≠ v) :
+    ((groupT (c + 1)).step (some v) src p) = ([v], some (src p), p + 1) := by
+  simp [groupT, runLen, h]
+
 /-- linear bounds compose: a pipeline of linear stages is linear, at any depth -/
 theorem bound_compose (a1 b1 a2 b2 : Nat) (p1 p2 : Nat → Nat)
     (h1 : ∀ n, p1 n ≤ a1 * n + b1) (h2 : ∀ n, p2 n ≤ a2 * n + b2) (n : Nat) :
